@@ -40,7 +40,7 @@ COMPONENTS = {
 PROBES = ["non_identity_order_with_per_atom_drive", "relabelled_register", "reinserted_register", "resume_under_non_identity_order", "dark_atoms_present", "slm_mask_present", "dmm_present", "pi_pulse_bitstring", "non_permutable_observable_safeguard", "real_optimiser_order", "user_initial_state", "register_of_8_to_16_atoms", "observable_with_tag_suffix"]
 ASSUMPTIONS = [
     "comparison tolerance 2e-3 absolute on occupations / correlations, 2e-3 x |H| on energies and 2e-3 x |H|^2 on energy second moment / variance (|H| = an upper bound on the energy scale computed from the scenario, SLM detuning included); the two-site TDVP projection error depends on the site order (the largest occupation discrepancy seen over seeds 0-8 was 7e-5, with an SLM mask), a misdirected per-atom drive moves an occupation by >= 0.05; workloads keep the order-dependent TDVP error orders of magnitude below it (bond dimension uncapped, precision 1e-8, E*dt <= 0.05) and a misdirected per-atom drive changes some occupation by >= 0.05",
-    "bit strings are compared exactly only in the pi-pulse workload (deterministic outcome); elsewhere through the occupations of the same run",
+    "bit strings are compared exactly only in the pi-pulse workload (deterministic outcome); elsewhere per position against the occupations of the same run (exact binomial test, family-wise level 1e-9 per invocation, noiseless runs only)",
 ]
 
 
@@ -303,6 +303,10 @@ def run_one(tape: Tape, tier: str, opts: dict) -> dict:
             probes["register_of_8_to_16_atoms"] = 1
         if any(o.get("suffix") for o in case["cfg"]["observables"]):
             probes["observable_with_tag_suffix"] = 1
+        noiseless = not case["cfg"].get("noise")
+        bv, nb = _bits_vs_occupation(ref.results, n, "identity", desc, noiseless)
+        V.extend(bv)
+        ncmp_bits = nb
         # pi pulse: the outcome is deterministic and reveals positions
         if kind == "pi":
             tgt = case["extra"]["pi_target"]
@@ -341,6 +345,9 @@ def run_one(tape: Tape, tier: str, opts: dict) -> dict:
                 V.append({"clause": "C03.order-changes-results", "site": kind, "msg": f"internal order {plist} changes the results: {d[:3]} (identity-order occupations {R.summarize(ref.results)['tags'].get('occupation')}, this order {R.summarize(out.results)['tags'].get('occupation')}) :: {desc}"})
             if kind == "pi":
                 V.extend(_pi_check(out.results, case["extra"]["pi_target"], n, f"order", desc))
+            bv, nb = _bits_vs_occupation(out.results, n, "order", desc, noiseless)
+            V.extend(bv)
+            ncmp_bits += nb
             if do_resume and out.worlds:
                 base = M.advertised_name(out.worlds, out.leftover, C.PREFIX)
                 cache: dict = {}
@@ -436,6 +443,7 @@ def run_one(tape: Tape, tier: str, opts: dict) -> dict:
             "sim_wall_s": world.clock.total_advanced,
             "faults": {"crash": probes.get("resume_under_non_identity_order", 0)},
             "maxdisc": maxdisc,
+            "ncmp_bits": ncmp_bits,
         }
     finally:
         world.close()
@@ -449,6 +457,40 @@ def _dedupe(V: list[dict]) -> list[dict]:
             seen.add(k)
             out.append(v)
     return out
+
+
+BITS_LOG_ALPHA = math.log(1e-9 / 1e6)  # per comparison; <= 1e6 (atom, time, run) comparisons per invocation
+
+
+def _bits_vs_occupation(canon: dict, n: int, where: str, desc: dict, noiseless: bool) -> tuple[list[dict], int]:
+    """Bit-string positions against the occupations of the same run: in a noiseless run without readout errors the
+    number of shots with a '1' at position i is Binomial(shots, <n_i>) - an exact test at a fixed family-wise level;
+    gross mix-ups of positions (wrong permutation of the strings only) show for any drive that distinguishes atoms."""
+    from .c15 import log_two_sided
+
+    V: list[dict] = []
+    ncmp = 0
+    if not noiseless:
+        return V, 0
+    for suffix in ("", "_x"):
+        bs, occ = canon["tags"].get("bitstrings" + suffix), canon["tags"].get("occupation")
+        if not bs or not occ:
+            continue
+        occ_by_t = {t: np.asarray(v, dtype=float) for t, v in occ}
+        for t, v in bs:
+            cnt = v.get("__counter__") if isinstance(v, dict) else None
+            o = occ_by_t.get(t)
+            if not cnt or o is None or o.shape != (n,):
+                continue
+            shots = sum(cnt.values())
+            for i in range(n):
+                k = sum(c for s_, c in cnt.items() if len(s_) == n and s_[i] == "1")
+                ncmp += 1
+                lp = log_two_sided(k, shots, min(1.0, max(0.0, float(o[i]))))
+                if lp < BITS_LOG_ALPHA:
+                    V.append({"clause": "C03.bitstrings-vs-occupation", "site": where + ("|tag_suffix" if suffix else ""), "msg": f"at t={t}: {k} of {shots} bit strings have a '1' at position {i}, but the occupation of atom #{i} in the same run is {float(o[i]):.4f} (exact binomial log p = {lp:.1f}); occupations {np.round(o, 4).tolist()}, counts {dict(list(cnt.items())[:6])} :: {desc}"})
+                    return V, ncmp
+    return V, ncmp
 
 
 def _maxdiff(a: dict, b: dict) -> float:
@@ -492,4 +534,9 @@ def _pi_check_tags(canon: dict, tgt: int, n: int, where: str, desc: dict, occ_ta
 
 def finish(results: list[dict], tier: str, opts: dict) -> tuple[list[dict], dict]:
     m = max([r.get("maxdisc", 0.0) for r in results] or [0.0])
-    return [], {"calibration_max_discrepancy": m, "tolerance": TOL}
+    nb = sum(int(r.get("ncmp_bits", 0)) for r in results)
+    if nb > 1e6:
+        from ..seams import HarnessError
+
+        raise HarnessError("more bit-string comparisons than the per-comparison level was derived for")
+    return [], {"calibration_max_discrepancy": m, "tolerance": TOL, "bitstring_position_comparisons": nb}
